@@ -224,6 +224,8 @@ type Node struct {
 	Pin      string // file name this declaration must stay in ("" = movable)
 }
 
+func (p *Prog) MaxID() int { return p.nextID }
+
 func (p *Prog) NewLine(text string, uses ...*Use) *Line {
 	p.nextID++
 	return &Line{ID: p.nextID, Text: text, Uses: uses}
